@@ -8,6 +8,9 @@ Proof. apply schema_wfb_sound. vm_compute. reflexivity. Qed.
 Lemma CS_length : length CS = 8.
 Proof. reflexivity. Qed.
 
+(* the table / column index constants of the generated schema, for `autounfold with clschema` *)
+Global Hint Unfold T_towers C_towers_tower_id C_towers_net_addr C_towers_available_slots T_appointments C_appointments_locator C_appointments_encrypted_blob C_appointments_to_self_delay T_pending_appointments C_pending_appointments_locator C_pending_appointments_tower_id T_invalid_appointments C_invalid_appointments_locator C_invalid_appointments_tower_id T_registration_receipts C_registration_receipts_tower_id C_registration_receipts_available_slots C_registration_receipts_subscription_start C_registration_receipts_subscription_expiry C_registration_receipts_signature T_appointment_receipts C_appointment_receipts_locator C_appointment_receipts_tower_id C_appointment_receipts_start_block C_appointment_receipts_user_signature C_appointment_receipts_tower_signature T_misbehaving_proofs C_misbehaving_proofs_tower_id C_misbehaving_proofs_locator C_misbehaving_proofs_recovered_id T_keys C_keys_id C_keys_key : clschema.
+
 (* rows built by mkrow are the expected positional rows *)
 Lemma mkrow_towers t a s :
   mkrow T_towers [(C_towers_tower_id, t); (C_towers_net_addr, a); (C_towers_available_slots, s)] = [t; a; s].
@@ -159,10 +162,10 @@ Proof.
   intros HD. induction HD as [c r Hr Hroot|c r fk r' Hr Hfk Hc Hr' HD IH Hk].
   - apply where_root_true in Hroot. destruct Hroot as [-> Hp]. cbn in Hp. inversion Hp as [E].
     unfold row_of_tower. cbn. unfold col. cbn. apply N.eqb_refl.
-  - destruct_table c; cbn in Hfk; try contradiction;
+  - destruct_table c; cbn in Hfk; try contradiction; try (destruct c; cbn in Hfk; contradiction);
       repeat (destruct Hfk as [<-|Hfk]); try contradiction;
-      cbn in IH, Hk |- *; try discriminate IH;
-      unfold row_of_tower, col in *; cbn in *; inversion Hk; congruence.
+      cbn in IH, Hk |- *; unfold row_of_tower, col in *; cbn in *; autounfold with clschema in *;
+      try discriminate; inversion Hk; congruence.
 Qed.
 
 Lemma doomed_abandon_complete d t c r :
@@ -170,35 +173,365 @@ Lemma doomed_abandon_complete d t c r :
 Proof.
   intros Hfk Hr Hrow.
   assert (Htow : forall tr, In tr (tbl d T_towers) -> col tr C_towers_tower_id = t -> Doomed CS d (abandon_root t) T_towers tr).
-  { intros tr Htr E. apply Doomed_root; [exact Htr|]. apply where_root_true. split; [reflexivity|]. cbn. unfold col in E. cbn in E. rewrite E. reflexivity. }
+  { intros tr Htr E. apply Doomed_root; [exact Htr|]. apply where_root_true. split; [reflexivity|].
+    cbn. f_equal. exact E. }
   assert (Har : forall rc, In rc (tbl d T_appointment_receipts) -> col rc C_appointment_receipts_tower_id = t ->
                            Doomed CS d (abandon_root t) T_appointment_receipts rc).
   { intros rc Hrc E. destruct (fk_ar_tower d rc Hfk Hrc) as [tr [Htr Et]].
     apply (Doomed_child CS d _ T_appointment_receipts rc (mk_fkey [1] 0 [0] true) tr); auto.
     - cbn. auto.
     - apply Htow; [exact Htr|congruence].
-    - cbn. unfold col in Et. cbn in Et. rewrite Et. reflexivity. }
+    - cbn. f_equal. exact Et. }
   unfold row_of_tower in Hrow. destruct_table c; cbn in Hrow; try discriminate; apply N.eqb_eq in Hrow.
   - apply Htow; assumption.
   - destruct (fk_pending_tower d r Hfk Hr) as [tr [Htr Et]].
     apply (Doomed_child CS d _ T_pending_appointments r (mk_fkey [1] 0 [0] true) tr); auto.
     + cbn. auto.
     + apply Htow; [exact Htr|congruence].
-    + cbn. unfold col in Et. cbn in Et. rewrite Et. reflexivity.
+    + cbn. f_equal. exact Et.
   - destruct (fk_invalid_tower d r Hfk Hr) as [tr [Htr Et]].
     apply (Doomed_child CS d _ T_invalid_appointments r (mk_fkey [1] 0 [0] true) tr); auto.
     + cbn. auto.
     + apply Htow; [exact Htr|congruence].
-    + cbn. unfold col in Et. cbn in Et. rewrite Et. reflexivity.
+    + cbn. f_equal. exact Et.
   - destruct (fk_rr_tower d r Hfk Hr) as [tr [Htr Et]].
     apply (Doomed_child CS d _ T_registration_receipts r (mk_fkey [0] 0 [0] true) tr); auto.
     + cbn. auto.
     + apply Htow; [exact Htr|congruence].
-    + cbn. unfold col in Et. cbn in Et. rewrite Et. reflexivity.
+    + cbn. f_equal. exact Et.
   - apply Har; assumption.
   - destruct (fk_proof_receipt d r Hfk Hr) as [rc [Hrc [E1 E2]]].
     apply (Doomed_child CS d _ T_misbehaving_proofs r (mk_fkey [1; 0] 5 [0; 1] true) rc); auto.
     + cbn. auto.
     + apply Har; [exact Hrc|congruence].
-    + cbn. unfold col in E1, E2. cbn in E1, E2. rewrite E1, E2. reflexivity.
+    + cbn. f_equal; [exact E1|f_equal; exact E2].
+Qed.
+
+Lemma CS_all_cascade c fk : In fk (ts_fks (tsch CS c)) -> fk_cascade fk = true.
+Proof.
+  destruct_table c; cbn; try tauto; try (destruct c; cbn; tauto);
+    intros H; repeat (destruct H as [<-|H]); try contradiction; reflexivity.
+Qed.
+
+Lemma existsb_all_false {A} (f : A -> bool) l : (forall x, In x l -> f x = false) -> existsb f l = false.
+Proof.
+  induction l as [|x l IH]; cbn; intros H; [reflexivity|].
+  rewrite (H x (or_introl eq_refl)), IH; [reflexivity|]. intros y Hy. apply H. right. exact Hy.
+Qed.
+
+Lemma existsb_map_idx_from_all_false {A} (g : nat -> A -> bool) l i :
+  (forall c x, g c x = false) -> existsb (fun x => x) (map_idx_from i g l) = false.
+Proof.
+  intros H. revert i. induction l as [|x l IH]; intros i; cbn; [reflexivity|]. rewrite H, IH. reflexivity.
+Qed.
+
+(* no foreign key of the client schema is NO ACTION: a DELETE never fails on a constraint *)
+Lemma delete_root_total d root : exists d', db_delete_root CS d root = DbOk d'.
+Proof.
+  unfold db_delete_root, map_idx. rewrite existsb_map_idx_from_all_false; [eexists; reflexivity|].
+  intros c rows. apply existsb_all_false. intros r _. unfold orphanedb. apply andb_false_iff. right.
+  apply existsb_all_false. intros fk Hfk. rewrite (CS_all_cascade c fk Hfk). reflexivity.
+Qed.
+
+Lemma tbl_delete_root d root d' :
+  db_delete_root CS d root = DbOk d' ->
+  (forall c, tbl d' c = filter (fun r => negb (doomed CS d root c r)) (tbl d c)) /\ length d' = length d.
+Proof. intros H. apply db_delete_root_inv in H. tauto. Qed.
+
+(* a DELETE expressed with the set of rows it removes *)
+Lemma delete_root_spec d root d' (P : nat -> row -> bool) :
+  db_delete_root CS d root = DbOk d' ->
+  (forall c r, In r (tbl d c) -> (Doomed CS d root c r <-> P c r = true)) ->
+  forall c, tbl d' c = filter (fun r => negb (P c r)) (tbl d c).
+Proof.
+  intros H HP c. destruct (tbl_delete_root d root d' H) as [Ht _]. rewrite Ht.
+  apply filter_ext_in'. intros r Hr. f_equal.
+  destruct (doomed CS d root c r) eqn:E.
+  - apply (doomed_iff CS d root CS_wf c r Hr) in E. apply HP in E; [|exact Hr]. symmetry. exact E.
+  - destruct (P c r) eqn:E2; [|reflexivity]. apply HP in E2; [|exact Hr].
+    apply (doomed_iff CS d root CS_wf c r Hr) in E2. congruence.
+Qed.
+
+(* abandon: the rows of tower t in the six tower-keyed tables, nothing else *)
+Lemma abandon_delete_spec d t d' :
+  fk_ok CS d -> db_delete_root CS d (abandon_root t) = DbOk d' ->
+  forall c, tbl d' c = filter (fun r => negb (row_of_tower c t r)) (tbl d c).
+Proof.
+  intros Hfk H. apply (delete_root_spec d _ d' (fun c r => row_of_tower c t r) H).
+  intros c r Hr. split; [apply doomed_abandon_sound|apply doomed_abandon_complete; assumption].
+Qed.
+
+(* DELETE FROM pending_appointments WHERE locator=l AND tower_id=t: that row only *)
+Definition pending_root (t l : N) :=
+  where_root T_pending_appointments [C_pending_appointments_locator; C_pending_appointments_tower_id] [l; t].
+Definition is_pending_key (t l : N) (c : nat) (r : row) : bool :=
+  Nat.eqb c T_pending_appointments &&
+  key_eqb (proj r [C_pending_appointments_locator; C_pending_appointments_tower_id]) [l; t].
+
+Lemma doomed_pending_row d t l c r :
+  Doomed CS d (pending_root t l) c r <-> (In r (tbl d c) /\ is_pending_key t l c r = true).
+Proof.
+  split.
+  - intros HD. induction HD as [c r Hr Hroot|c r fk r' Hr Hfk Hc Hr' HD IH Hk].
+    + split; [exact Hr|exact Hroot].
+    + destruct IH as [_ IH]. unfold is_pending_key in IH. apply andb_true_iff in IH. destruct IH as [IH _].
+      apply Nat.eqb_eq in IH.
+      destruct_table c; cbn in Hfk; try contradiction; try (destruct c; cbn in Hfk; contradiction);
+        repeat (destruct Hfk as [<-|Hfk]); try contradiction; cbn in IH; discriminate.
+  - intros [Hr H]. apply Doomed_root; assumption.
+Qed.
+
+Lemma pending_delete_spec d t l d' :
+  db_delete_root CS d (pending_root t l) = DbOk d' ->
+  forall c, tbl d' c = filter (fun r => negb (is_pending_key t l c r)) (tbl d c).
+Proof.
+  intros H. apply (delete_root_spec d _ d' (is_pending_key t l) H).
+  intros c r Hr. rewrite doomed_pending_row. tauto.
+Qed.
+
+(* DELETE FROM appointments WHERE locator=l: the body and, by cascade, every pending / invalid row on l *)
+Definition body_root (l : N) := where_root T_appointments [C_appointments_locator] [l].
+Definition on_locator (l : N) (c : nat) (r : row) : bool :=
+  (Nat.eqb c T_appointments || Nat.eqb c T_pending_appointments || Nat.eqb c T_invalid_appointments) &&
+  N.eqb (nth 0 r 0%N) l.
+
+Lemma doomed_body_sound d l c r : Doomed CS d (body_root l) c r -> on_locator l c r = true.
+Proof.
+  intros HD. induction HD as [c r Hr Hroot|c r fk r' Hr Hfk Hc Hr' HD IH Hk].
+  - apply where_root_true in Hroot. destruct Hroot as [-> Hp]. cbn in Hp. inversion Hp as [E].
+    unfold on_locator. cbn. apply N.eqb_refl.
+  - unfold on_locator in *.
+    destruct_table c; cbn in Hfk; try contradiction; try (destruct c; cbn in Hfk; contradiction);
+      repeat (destruct Hfk as [<-|Hfk]); try contradiction;
+      cbn in IH, Hk |- *; try discriminate; inversion Hk; congruence.
+Qed.
+
+Lemma doomed_body_complete d l c r :
+  fk_ok CS d -> In r (tbl d c) -> on_locator l c r = true -> Doomed CS d (body_root l) c r.
+Proof.
+  intros Hfk Hr H. unfold on_locator in H. apply andb_true_iff in H. destruct H as [Hc Hl]. apply N.eqb_eq in Hl.
+  assert (Hb : forall b, In b (tbl d T_appointments) -> col b C_appointments_locator = l ->
+                         Doomed CS d (body_root l) T_appointments b).
+  { intros b Hbin E. apply Doomed_root; [exact Hbin|]. apply where_root_true. split; [reflexivity|].
+    cbn. f_equal. exact E. }
+  destruct_table c; cbn in Hc; try discriminate.
+  - apply Hb; assumption.
+  - destruct (fk_pending_body d r Hfk Hr) as [b [Hbin E]].
+    apply (Doomed_child CS d _ T_pending_appointments r (mk_fkey [0] 1 [0] true) b); auto.
+    + cbn. auto.
+    + apply Hb; [exact Hbin|]. rewrite E. exact Hl.
+    + cbn. f_equal. exact E.
+  - destruct (fk_invalid_body d r Hfk Hr) as [b [Hbin E]].
+    apply (Doomed_child CS d _ T_invalid_appointments r (mk_fkey [0] 1 [0] true) b); auto.
+    + cbn. auto.
+    + apply Hb; [exact Hbin|]. rewrite E. exact Hl.
+    + cbn. f_equal. exact E.
+Qed.
+
+Lemma body_delete_spec d l d' :
+  fk_ok CS d -> db_delete_root CS d (body_root l) = DbOk d' ->
+  forall c, tbl d' c = filter (fun r => negb (on_locator l c r)) (tbl d c).
+Proof.
+  intros Hfk H. apply (delete_root_spec d _ d' (on_locator l) H).
+  intros c r Hr. split; [apply doomed_body_sound|apply doomed_body_complete; assumption].
+Qed.
+
+(* the garbage collection of remove_tower_record: the unreferenced bodies only *)
+Lemma doomed_gc d0 d c r :
+  (forall b, In b (tbl d T_appointments) -> unreferenced_root d0 T_appointments b = true ->
+     (forall p, In p (tbl d T_pending_appointments) -> col p C_pending_appointments_locator <> col b C_appointments_locator) /\
+     (forall p, In p (tbl d T_invalid_appointments) -> col p C_invalid_appointments_locator <> col b C_appointments_locator)) ->
+  (Doomed CS d (unreferenced_root d0) c r <-> (In r (tbl d c) /\ unreferenced_root d0 c r = true)).
+Proof.
+  intros Hun. split.
+  - intros HD. induction HD as [c r Hr Hroot|c r fk r' Hr Hfk Hc Hr' HD IH Hk].
+    + tauto.
+    + destruct IH as [Hin IH]. pose proof IH as IH0. unfold unreferenced_root in IH. apply andb_true_iff in IH.
+      destruct IH as [IH _]. apply Nat.eqb_eq in IH.
+      destruct_table c; cbn in Hfk; try contradiction; try (destruct c; cbn in Hfk; contradiction);
+        repeat (destruct Hfk as [<-|Hfk]); try contradiction; cbn in IH; try discriminate; exfalso.
+      * destruct (Hun r' Hr' IH0) as [A _]. apply (A r Hr). cbn in Hk. inversion Hk as [E]. symmetry. exact E.
+      * destruct (Hun r' Hr' IH0) as [_ A]. apply (A r Hr). cbn in Hk. inversion Hk as [E]. symmetry. exact E.
+  - intros [Hr H]. apply Doomed_root; assumption.
+Qed.
+
+(* ---------- association lists ---------- *)
+Lemma aget_aretain {V} (p : N -> bool) (m : amap V) k :
+  aget (aretain p m) k = if p k then aget m k else None.
+Proof.
+  unfold aretain. induction m as [|[k' v] m IH]; cbn; [destruct (p k); reflexivity|].
+  destruct (N.eqb k k') eqn:E.
+  - apply N.eqb_eq in E. subst k'. destruct (p k) eqn:Ep; cbn.
+    + rewrite N.eqb_refl. reflexivity.
+    + exact IH.
+  - destruct (p k') eqn:Ep'; cbn; [rewrite E|]; exact IH.
+Qed.
+
+Lemma aget_aremove {V} (m : amap V) t k : aget (aremove m t) k = if N.eqb k t then None else aget m k.
+Proof. unfold aremove. rewrite aget_aretain. destruct (N.eqb k t); reflexivity. Qed.
+
+Lemma aget_aset {V} (m : amap V) t v k : aget (aset m t v) k = if N.eqb k t then Some v else aget m k.
+Proof. unfold aset. cbn. destruct (N.eqb k t) eqn:E; [reflexivity|]. rewrite aget_aremove, E. reflexivity. Qed.
+
+Lemma aget_In_fst {V} (m : amap V) k v : aget m k = Some v -> In k (map fst m).
+Proof.
+  induction m as [|[k' v'] m IH]; cbn; [discriminate|].
+  destruct (N.eqb k k') eqn:E; [apply N.eqb_eq in E; auto|auto].
+Qed.
+
+Lemma aget_None_not_In {V} (m : amap V) k : aget m k = None -> ~ In k (map fst m).
+Proof.
+  induction m as [|[k' v'] m IH]; cbn; [tauto|].
+  destruct (N.eqb k k') eqn:E; [discriminate|]. apply N.eqb_neq in E. intros H [A|A]; [congruence|]. exact (IH H A).
+Qed.
+
+(* ---------- find over tables ---------- *)
+Lemma find_some_iff_unique {A} (f : A -> bool) (g : A -> key) l x :
+  NoDup (map g l) -> (forall a b, f a = true -> f b = true -> g a = g b) ->
+  In x l -> f x = true -> find f l = Some x.
+Proof.
+  induction l as [|y l IH]; cbn; intros Hnd Hg Hin Hf; [contradiction|].
+  inversion Hnd as [|? ? Hny Hnd']; subst. destruct (f y) eqn:Ey.
+  - destruct Hin as [->|Hin]; [reflexivity|]. exfalso. apply Hny. rewrite (Hg y x Ey Hf). apply in_map. exact Hin.
+  - destruct Hin as [->|Hin]; [congruence|]. apply IH; assumption.
+Qed.
+
+Lemma find_none_iff {A} (f : A -> bool) l : find f l = None <-> forall x, In x l -> f x = false.
+Proof.
+  split.
+  - intros H x Hx. exact (find_none f l H x Hx).
+  - induction l as [|y l IH]; cbn; intros H; [reflexivity|].
+    rewrite (H y (or_introl eq_refl)). apply IH. intros x Hx. apply H. right. exact Hx.
+Qed.
+
+Lemma find_pk_Some d tb k r : find_pk CS d tb k = Some r -> In r (tbl d tb) /\ proj r (ts_pk (tsch CS tb)) = k.
+Proof. unfold find_pk. intros H. apply find_some in H. destruct H as [A B]. apply key_eqb_eq in B. tauto. Qed.
+
+Lemma find_pk_unique d tb k r : pk_ok CS d -> In r (tbl d tb) -> proj r (ts_pk (tsch CS tb)) = k -> find_pk CS d tb k = Some r.
+Proof.
+  intros Hpk Hr Hk. unfold find_pk.
+  apply (find_some_iff_unique _ (fun r => proj r (ts_pk (tsch CS tb)))).
+  - apply Hpk.
+  - intros a b Ha Hb. apply key_eqb_eq in Ha, Hb. congruence.
+  - exact Hr.
+  - apply key_eqb_eq. exact Hk.
+Qed.
+
+Lemma find_pk_None d tb k : find_pk CS d tb k = None <-> forall r, In r (tbl d tb) -> proj r (ts_pk (tsch CS tb)) <> k.
+Proof.
+  unfold find_pk. rewrite find_none_iff. split; intros H r Hr.
+  - apply key_eqb_neq. apply H. exact Hr.
+  - apply key_eqb_neq. apply H. exact Hr.
+Qed.
+
+Lemma existsb_find {A} (f : A -> bool) l : existsb f l = match find f l with Some _ => true | None => false end.
+Proof. induction l as [|x l IH]; cbn; [reflexivity|]. destruct (f x); cbn; [reflexivity|exact IH]. Qed.
+
+Lemma has_pk_find d tb k : has_pk CS d tb k = match find_pk CS d tb k with Some _ => true | None => false end.
+Proof. unfold has_pk, find_pk. apply existsb_find. Qed.
+
+(* find_pk depends on the table only *)
+Lemma find_pk_ext d d' tb k : tbl d' tb = tbl d tb -> find_pk CS d' tb k = find_pk CS d tb k.
+Proof. unfold find_pk. intros ->. reflexivity. Qed.
+
+Lemma find_filter_keep {A} (f p : A -> bool) l :
+  (forall x, In x l -> f x = true -> p x = true) -> find f (filter p l) = find f l.
+Proof.
+  induction l as [|y l IH]; cbn; intros H; [reflexivity|].
+  destruct (p y) eqn:Ep; cbn.
+  - destruct (f y); [reflexivity|]. apply IH. intros x Hx. apply H. right. exact Hx.
+  - destruct (f y) eqn:Ef; [rewrite (H y (or_introl eq_refl) Ef) in Ep; discriminate|].
+    apply IH. intros x Hx. apply H. right. exact Hx.
+Qed.
+
+Lemma find_map_key {A} (f : A -> bool) (g : A -> A) l :
+  (forall x, f (g x) = f x) -> find f (map g l) = option_map g (find f l).
+Proof.
+  intros H. induction l as [|y l IH]; cbn; [reflexivity|]. rewrite H. destruct (f y); [reflexivity|exact IH].
+Qed.
+
+(* ---------- the views a summary is computed from ---------- *)
+Lemma max_receipt_ext d d' t : tbl d' T_registration_receipts = tbl d T_registration_receipts -> max_receipt d' t = max_receipt d t.
+Proof. unfold max_receipt. intros ->. reflexivity. Qed.
+Lemma pending_locators_ext d d' t : tbl d' T_pending_appointments = tbl d T_pending_appointments -> pending_locators d' t = pending_locators d t.
+Proof. unfold pending_locators. intros ->. reflexivity. Qed.
+Lemma invalid_locators_ext d d' t : tbl d' T_invalid_appointments = tbl d T_invalid_appointments -> invalid_locators d' t = invalid_locators d t.
+Proof. unfold invalid_locators. intros ->. reflexivity. Qed.
+
+Definition rr_step (t : N) (best : option row) (r : row) : option row :=
+  if N.eqb (col r C_registration_receipts_tower_id) t then
+    match best with
+    | None => Some r
+    | Some b => if N.ltb (col b C_registration_receipts_subscription_expiry)
+                         (col r C_registration_receipts_subscription_expiry)
+                then Some r else Some b
+    end
+  else best.
+
+Lemma max_receipt_fold d t : max_receipt d t = fold_left (rr_step t) (tbl d T_registration_receipts) None.
+Proof. reflexivity. Qed.
+
+Lemma fold_rr_filter t p l acc :
+  (forall r, In r l -> col r C_registration_receipts_tower_id = t -> p r = true) ->
+  fold_left (rr_step t) (filter p l) acc = fold_left (rr_step t) l acc.
+Proof.
+  revert acc. induction l as [|r l IH]; cbn; intros acc H; [reflexivity|].
+  destruct (p r) eqn:Ep; cbn.
+  - apply IH. intros x Hx. apply H. right. exact Hx.
+  - rewrite IH by (intros x Hx; apply H; right; exact Hx). f_equal. unfold rr_step.
+    destruct (N.eqb (col r C_registration_receipts_tower_id) t) eqn:E; [|reflexivity].
+    apply N.eqb_eq in E. rewrite (H r (or_introl eq_refl) E) in Ep. discriminate.
+Qed.
+
+Lemma fold_rr_none t l : (forall r, In r l -> col r C_registration_receipts_tower_id <> t) -> fold_left (rr_step t) l None = None.
+Proof.
+  induction l as [|r l IH]; cbn; intros H; [reflexivity|].
+  unfold rr_step at 2. destruct (N.eqb (col r C_registration_receipts_tower_id) t) eqn:E.
+  - apply N.eqb_eq in E. exfalso. exact (H r (or_introl eq_refl) E).
+  - apply IH. intros x Hx. apply H. right. exact Hx.
+Qed.
+
+(* the fold returns a receipt of t whose expiry is maximal *)
+Lemma fold_rr_spec t l : forall acc,
+  (forall b, acc = Some b -> col b C_registration_receipts_tower_id = t) ->
+  match fold_left (rr_step t) l acc with
+  | Some m => col m C_registration_receipts_tower_id = t /\ (acc = Some m \/ In m l) /\
+              (forall b, acc = Some b -> (col b C_registration_receipts_subscription_expiry <= col m C_registration_receipts_subscription_expiry)%N) /\
+              (forall r, In r l -> col r C_registration_receipts_tower_id = t ->
+                         (col r C_registration_receipts_subscription_expiry <= col m C_registration_receipts_subscription_expiry)%N)
+  | None => acc = None /\ forall r, In r l -> col r C_registration_receipts_tower_id <> t
+  end.
+Proof.
+  induction l as [|r l IH]; intros acc Hacc; cbn [fold_left].
+  - destruct acc as [b|]; [|split; [reflexivity|intros r []]].
+    split; [apply Hacc; reflexivity|]. split; [left; reflexivity|]. split; [|intros r []].
+    intros b' E. injection E as <-. apply N.le_refl.
+  - assert (Hacc' : forall b, rr_step t acc r = Some b -> col b C_registration_receipts_tower_id = t).
+    { intros b. unfold rr_step. destruct (N.eqb (col r C_registration_receipts_tower_id) t) eqn:E.
+      - apply N.eqb_eq in E. destruct acc as [b0|].
+        + destruct (N.ltb _ _); intros H; injection H as <-; [exact E|apply Hacc; reflexivity].
+        + intros H; injection H as <-; exact E.
+      - apply Hacc. }
+    specialize (IH (rr_step t acc r) Hacc'). destruct (fold_left (rr_step t) l (rr_step t acc r)) as [m|].
+    + destruct IH as [Hm [Hsrc [Hge Hall]]]. split; [exact Hm|].
+      unfold rr_step in Hsrc, Hge. destruct (N.eqb (col r C_registration_receipts_tower_id) t) eqn:E.
+      * destruct acc as [b0|].
+        -- destruct (N.ltb (col b0 C_registration_receipts_subscription_expiry) (col r C_registration_receipts_subscription_expiry)) eqn:El.
+           ++ apply N.ltb_lt in El. split; [destruct Hsrc as [Hs|Hs]; [injection Hs as ->; right; left; reflexivity|right; right; exact Hs]|].
+              split.
+              ** intros b Eb. injection Eb as <-. specialize (Hge r eq_refl). lia.
+              ** intros x [<-|Hx] Ex; [apply Hge; reflexivity|apply Hall; assumption].
+           ++ apply N.ltb_ge in El. split; [destruct Hsrc as [Hs|Hs]; [left; exact Hs|right; right; exact Hs]|].
+              split.
+              ** intros b Eb. injection Eb as <-. apply Hge. reflexivity.
+              ** intros x [<-|Hx] Ex; [specialize (Hge b0 eq_refl); lia|apply Hall; assumption].
+        -- split; [destruct Hsrc as [Hs|Hs]; [injection Hs as ->; right; left; reflexivity|right; right; exact Hs]|].
+           split; [intros b Eb; discriminate|].
+           intros x [<-|Hx] Ex; [apply Hge; reflexivity|apply Hall; assumption].
+      * apply N.eqb_neq in E. split; [destruct Hsrc as [Hs|Hs]; [left; exact Hs|right; right; exact Hs]|].
+        split; [exact Hge|]. intros x [<-|Hx] Ex; [contradiction|apply Hall; assumption].
+    + destruct IH as [Hn Hall]. unfold rr_step in Hn.
+      destruct (N.eqb (col r C_registration_receipts_tower_id) t) eqn:E.
+      * destruct acc as [b0|]; [destruct (N.ltb _ _); discriminate|discriminate].
+      * apply N.eqb_neq in E. split; [exact Hn|]. intros x [<-|Hx]; [exact E|apply Hall; exact Hx].
 Qed.
